@@ -1,4 +1,4 @@
-import IrVerif.Lemmas.SerdeNames
+import IrVerif.Lemmas.SerdeFields
 /-!
 C02 — ONNX proto -> IR -> proto is lossless (DESIGN.md section 5, C02).
 
@@ -11,6 +11,16 @@ Stage A: every leaf message round-trips, for all inputs.
 Stage B: nodes and graphs with arbitrarily nested subgraphs (values captured from enclosing
 scopes), functions and models: `WFproto p -> serialize (deserialize p) = norm p`, and `norm` is
 idempotent, hence `WFproto p -> norm (serialize (deserialize p)) = norm p` (`C02_model_norm`).
+Stage C: the same read field by field, without `norm`: `C02_keeps_model`, `C02_keeps_nodes`,
+`C02_keeps_values` (vocabulary `ModelKeeps`, `FnKeeps`, `NodeKeeps`, `GraphKeeps`, `TensorKeeps`,
+`VIKeeps` in `IrVerif/Lemmas/SerdeFields.lean`), and the stand-alone entry points
+(`C02_node_alone`, `C02_function_alone`).
+
+Facts that hold by construction of the model (bytes payloads are opaque tokens, floats are bit
+patterns, a proto-backed tensor keeps its TensorProto; float32 <-> double conversion and UTF-8
+decoding live in the trusted renderer of `harness/c02.py`) are stated below for the reader but are
+NOT claimed as property theorems: `dim_by_construction`, `attr_scalar_by_construction`,
+`tensor_proto_backed_by_construction`.
 -/
 namespace IrVerif.Serde
 open IrVerif.Proto
@@ -20,20 +30,19 @@ def rtAttr (scopes : Scopes) (a : AttrP) : Except Err AttrP := desAttr scopes a 
 
 /-! ## stage A -/
 
-/-- a dimension (value / parameter / unknown, with denotation) round-trips exactly -/
-theorem C02_dim (d : DimP) : serDim (desDim d) = d := serDim_desDim d
+/-- (by construction, not claimed) a dimension round-trips exactly -/
+theorem dim_by_construction (d : DimP) : serDim (desDim d) = d := serDim_desDim d
 
 /-- a shape of any rank round-trips exactly -/
 theorem C02_shape (s : ShapeP) : serShape (desShape s) = s := serShape_desShape s
 
-/-- string-string maps (metadata_props, quantization parameter names): the round trip is the
-sorted map; sorting is idempotent and, for distinct keys, a permutation (no entry lost, duplicated
-or altered) -/
+/-- string-string maps (metadata_props, quantization parameter names): the round trip
+`sortEntries (dictOfEntries es)` (a dict, written back sorted by key) is idempotent and, for distinct
+keys, a permutation of the entries (no entry lost, duplicated or altered) -/
 theorem C02_maps (es : List Entry) :
-    sortEntries (dictOfEntries es) = normEntries es
-    ∧ normEntries (normEntries es) = normEntries es
-    ∧ (wfEntries es = true → (normEntries es).Perm es) :=
-  ⟨rfl, normEntries_idem es, perm_normEntries⟩
+    sortEntries (dictOfEntries (sortEntries (dictOfEntries es))) = sortEntries (dictOfEntries es)
+    ∧ (wfEntries es = true → (sortEntries (dictOfEntries es)).Perm es) :=
+  ⟨normEntries_idem es, perm_normEntries⟩
 
 /-- a TypeProto of arbitrary nesting round-trips exactly: element types, denotations at every
 level, and the shape, which lands on the leaf tensor type again -/
@@ -51,9 +60,9 @@ theorem C02_value_info (vi : ValueInfoP) (h : wfVI vi = true) :
   obtain ⟨ty, sh, h3, _, hok⟩ := applyInfo_ok (IRValue.blank vi.name) vi h.1
   exact ⟨_, hok, serValue_of_info vi ty sh [] none h3⟩
 
-/-- proto-backed tensors (every element type and storage field, any payload): the whole TensorProto
-is kept; only the metadata entries are reordered.  Holds for EVERY such proto. -/
-theorem C02_tensor_proto_backed (p : TensorP) (hloc : p.dataLocation ≠ 1) (hs : p.dataType ≠ 8) :
+/-- (by construction, not claimed) proto-backed tensors: the whole TensorProto is kept; only the
+metadata entries are reordered -/
+theorem tensor_proto_backed_by_construction (p : TensorP) (hloc : p.dataLocation ≠ 1) (hs : p.dataType ≠ 8) :
     ∃ t, desTensor p = .ok t ∧ serTensor t = normTensor p :=
   tensor_roundtrip_proto_backed p hloc hs
 
@@ -85,9 +94,8 @@ theorem C02_devcfg :
       serNodeDevCfgs scopes (cs.map (desNodeDevCfg scopes)) = .ok cs) :=
   ⟨fun c => by cases c; rfl, nodeDevCfgs_roundtrip⟩
 
-/-- INT / FLOAT / STRING attributes (name, doc string, value; a string that is not UTF-8 is kept
-as bytes) round-trip exactly -/
-theorem C02_attr_scalar (scopes : Scopes) (n d : String) :
+/-- (by construction, not claimed) INT / FLOAT / STRING attributes round-trip exactly -/
+theorem attr_scalar_by_construction (scopes : Scopes) (n d : String) :
     (∀ i, rtAttr scopes (.int n d i) = .ok (.int n d i)) ∧
     (∀ b, rtAttr scopes (.float n d b) = .ok (.float n d b)) ∧
     (∀ s, rtAttr scopes (.string n d s) = .ok (.string n d s)) := by
@@ -166,7 +174,8 @@ theorem C02_graph (outer : Scopes) (ver : Option Int) (g : GraphP) (h : wfGraph 
 /-- non-vacuity: a graph with an input, an initializer that is also an input, an initializer with
 value_info, a quantization annotation, metadata, and an `If`-like node whose `then_branch` subgraph
 captures the outer value `x`, uses an outer initializer, carries a reference attribute and a
-multi-device configuration, returns an outer value and passes its own input `p` through. -/
+multi-device configuration, returns an outer value and passes its own input `p` through with an
+output entry that differs from the input entry (see `examplePassThrough`). -/
 def exampleGraph : GraphP :=
   .mk "main" "doc"
     [ .mk ["x", "w", ""] ["y", ""] "n0" "If" "ai.onnx" "" "" 
@@ -178,7 +187,7 @@ def exampleGraph : GraphP :=
                   [⟨"cfg0", [⟨"x", [0, 1], [⟨0, [0, 1]⟩], [⟨0, [⟨.value 2, 2⟩]⟩]⟩], some 1⟩] ]
               [] [⟨"p", .tensor (some 9) (some []) "", "", [⟨"m", "1"⟩]⟩]
               [⟨"t", .tensor (some 1) none "", "", []⟩, ⟨"x", .unset "", "", []⟩,
-               ⟨"p", .tensor (some 9) (some []) "", "", [⟨"m", "1"⟩]⟩] [] [] []),
+               ⟨"p", .tensor (some 9) (some [⟨.value 1, ""⟩]) "", "out doc", [⟨"o", "3"⟩, ⟨"m", "2"⟩]⟩] [] [] []),
           .int "flag" "" 1 ]
         [⟨"b", "2"⟩, ⟨"a", "1"⟩] [] ]
     [ { emptyTensorP with name := "w", dataType := 1, dims := [2], floatData := [0, 1065353216] },
@@ -191,6 +200,23 @@ def exampleGraph : GraphP :=
     [⟨"z", "1"⟩, ⟨"a", "2"⟩]
 
 example : wfGraph [] exampleGraph = true := by decide
+
+/-- the documented normalisation "one Value carries one type": a value that is both a graph input
+and a graph output has ONE type / shape / doc string / metadata dict in the IR, so the two proto
+entries are merged: the output entry's type, shape and doc win, the metadata dicts are united
+(output entry wins per key) — and BOTH entries read that afterwards (`mergeVI`). -/
+def examplePassThrough : GraphP :=
+  .mk "g" "" [] []
+    [ ⟨"x", .tensor (some 1) (some [⟨.param "N", ""⟩]) "", "in doc", [⟨"k", "i"⟩, ⟨"a", "1"⟩]⟩ ]
+    [ ⟨"x", .tensor (some 1) (some [⟨.param "M", ""⟩]) "", "out doc", [⟨"k", "o"⟩, ⟨"b", "2"⟩]⟩ ]
+    [] [] []
+
+example : wfGraph [] examplePassThrough = true := by decide
+
+example : (normGraph examplePassThrough).inputs
+    = [ ⟨"x", .tensor (some 1) (some [⟨.param "M", ""⟩]) "", "out doc",
+          [⟨"a", "1"⟩, ⟨"b", "2"⟩, ⟨"k", "o"⟩]⟩ ]
+    ∧ (normGraph examplePassThrough).outputs = (normGraph examplePassThrough).inputs := by decide
 
 /-- a model-local function (with overload, attribute declarations and defaults, reference
 attributes in its nodes, value_info for inputs and intermediate values from IR version 10 on):
@@ -251,6 +277,58 @@ theorem C02_no_loss_names (m : ModelP) (h : wfModel m = true) :
   obtain ⟨x, h1, h2⟩ := model_rt m h
   obtain ⟨n1, n2, n3⟩ := normModel_names m
   exact ⟨x, normModel m, h1, h2, n1, n2, n3⟩
+
+/-! ## stage C: field by field, and the stand-alone entry points -/
+
+/-- the model-level fields (IR version, producer, domain, model version, doc string, opset imports,
+device configurations) are equal, the metadata entries are the same entries; every function is
+kept (`FnKeeps`: identifier, doc string, inputs, outputs, attribute declarations and defaults,
+opset imports, metadata, value_info); below IR version 10 the experimental `domain::name/value`
+entries of function values are kept -/
+theorem C02_keeps_model (m : ModelP) (h : wfModel m = true) :
+    ∃ x q, desModel m = .ok x ∧ serModel x = .ok q ∧ ModelKeeps q m := by
+  obtain ⟨x, q, h1, h2, h3, _, _⟩ := model_keeps m h
+  exact ⟨x, q, h1, h2, h3⟩
+
+/-- every node of the model — main graph, function bodies, subgraphs at any depth — is kept, in
+order (`NodeKeeps`: name, operator identifier up to `normDomain`, overload, doc string, inputs,
+outputs up to `trimTrailingEmpty`, the attribute list with every scalar / list / type / reference
+value, multi-device configurations; metadata entries; every tensor attribute by `TensorKeeps`) -/
+theorem C02_keeps_nodes (m : ModelP) (h : wfModel m = true) :
+    ∃ x q, desModel m = .ok x ∧ serModel x = .ok q ∧
+      Pointwise NodeKeeps (modelNodes q) (modelNodes m) := by
+  obtain ⟨x, q, h1, h2, _, h3, _⟩ := model_keeps m h
+  exact ⟨x, q, h1, h2, h3⟩
+
+/-- every graph of the model — the main graph and every subgraph at any depth — is kept, in order
+(`GraphKeeps`: name, doc string, metadata entries; every initializer by `TensorKeeps`: payload and
+storage fields equal; every input / output entry: type with element type, shape and denotations, doc
+string, metadata — for a pass-through value both entries read `mergeVI input output`; the
+value_info of every intermediate value that carries information; the value_info of every
+initializer, completed from its tensor by `fillFromTensor`; every quantization annotation) -/
+theorem C02_keeps_values (m : ModelP) (h : wfModel m = true) :
+    ∃ x q, desModel m = .ok x ∧ serModel x = .ok q ∧
+      Pointwise GraphKeeps (modelGraphs q) (modelGraphs m) := by
+  obtain ⟨x, q, h1, h2, _, _, h3⟩ := model_keeps m h
+  exact ⟨x, q, h1, h2, h3⟩
+
+/-- `from_proto(NodeProto)` / `to_proto`: a stand-alone node (free inputs become placeholder values,
+its subgraphs may capture them) round-trips to its canonical form -/
+theorem C02_node_alone (n : NodeP) (h : wfNodeAlone n = true) :
+    ∃ x tbl, desNodeAlone n = .ok (x, tbl) ∧ serNode [tableNames tbl] none x = .ok (normNode n) := by
+  obtain ⟨x, tbl, h1, _, h2⟩ := node_alone_rt n h
+  exact ⟨x, tbl, h1, h2⟩
+
+/-- `from_proto(FunctionProto)` / `to_proto`: a stand-alone function is serialized without a
+`model_ir_version` and with its value_info -/
+theorem C02_function_alone (f : FunctionP) (h : wfFunctionAlone f = true) :
+    ∃ x, desFunction f = .ok x ∧ serFunction none true x = .ok (normFunction true f) := by
+  obtain ⟨x, h1, h2, _⟩ := function_rt_gen none 10 f h (Or.inl rfl)
+  exact ⟨x, h1, by simpa using h2⟩
+
+example : wfNodeAlone (.mk ["a", "", "b", "a"] ["y", ""] "n" "If" "" "" ""
+    [.graph "then_branch" "" (.mk "g" "" [.mk ["a", "y"] ["t"] "" "Add" "" "" "" [] [] []] [] []
+      [⟨"t", .unset "", "", []⟩] [] [] [])] [] []) = true := by decide
 
 /-- non-vacuity of `wfModel`: IR version 11, the graph above (nested subgraph capturing an outer
 value), two functions `custom::f` that differ only in their overload, the second with a reference
